@@ -152,9 +152,9 @@ MANIFEST_TEXT = {
     "C11": dict(
         text="Lean theorems over ALL 2^24 NetIDs x 2^32 DevAddrs: C11_setPrefix (each of the 32 result bits is the one the addressing rules prescribe: prefix 1^t 0, low w_t bits of the ID field, NwkAddr untouched), "
              "C11_isNetID_iff, C11_prefixed_is_member, C11_netIDType, C11_netIDID; and for every identifier value: C11_text / _text_0x / _binary / _scan round trips, C11_binary_reversed, wrong lengths rejected. "
-             "Go results are also compared with an arithmetic form of the addressing rules.",
-        note="Trusted: Lean kernel; the rule tables in LW/Spec/Addr.lean; hex codec model. The bit-level and arithmetic spec forms are both hand-written (their equivalence is exercised at run time, not proved).",
-        technique="Lean 4 proof (bit-level characterisation via getLsbD extensionality, no bv_decide) + differential correspondence"),
+             "C11_setPrefix_arith / C11_isNetID_arith: the arithmetic form of the rules (prefix * 2^(31-t) + (ID mod 2^w) * 2^rest + address mod 2^rest; type = number of leading ones, NwkID field = ID mod 2^w), with which every Go result is compared, is exactly what the code computes for all pairs.",
+        note="Trusted: Lean kernel; the rule tables in LW/Spec/Addr.lean (bit-level and arithmetic forms, proved equivalent); hex codec model.",
+        technique="Lean 4 proof (bit-level characterisation via getLsbD extensionality, testBit arithmetic per address type, no bv_decide) + differential correspondence"),
     "C12": dict(
         text="Per-run kernel evaluation over the band data REGENERATED from /repo of the enumerators C12_rx1_channel, C12_rx1_datarate (defined downlink DR, equals region formula, nothing rejected that the region defines, no panic), "
              "C12_rx1_monotone, C12_pingslot_data for all 56 configurations; unbounded theorems C12_total (no panic for ANY integers, any configuration) and C12_pingslot_hopping (all DevAddr, all t >= 0). "
